@@ -149,6 +149,10 @@ def same_value(I, a, b):
         return True
     if isinstance(a, (PObj, ClassVal, Opaque, FuncVal)) or isinstance(b, (PObj, ClassVal, Opaque, FuncVal)):
         return False
+    from .values import is_scalar
+
+    if is_scalar(a) and is_scalar(b):
+        return bm.equal_values(I, a, b)
     if type(a) is not type(b) and not (isinstance(a, (int, float)) and isinstance(b, (int, float))):
         return False
     if isinstance(a, PList):
@@ -412,6 +416,12 @@ def install_iterators(reg):
     def getattr_fb(I, obj, name):
         if isinstance(obj, ScriptedIterator):
             return _iterator_attr(I, obj, name)
+        if obj is object and name in ("__getattribute__", "__setattr__", "__delattr__"):
+            # the default attribute protocol (bypasses a class's own __getattribute__/__setattr__, as in CPython)
+            fn = {"__getattribute__": lambda o, n: bm.get_attr(I, o, n), "__setattr__": lambda o, n, v: bm.set_attr(I, o, n, v), "__delattr__": lambda o, n: bm.del_attr(I, o, n)}[name]
+            return BuiltinFn("object." + name, fn)
+        if obj is dict and name == "fromkeys":
+            return BuiltinFn("dict.fromkeys", lambda it, value=None: PDict([(k, value) for k in I.iterate(it)]))
         if isinstance(obj, bm.GeneratorVal) and name in ("send", "__next__", "close"):
             raise PyvcError("resumable use of an interpreted generator is not modelled (generators are drained eagerly)")
         if prev_get is not None:
